@@ -98,7 +98,7 @@ func (c *c20Client) mailToken(addr, marker string, seen int) (string, int) {
 		var toks []string
 		switch c.w.Cfg.Mailer {
 		case "log":
-			toks = harness.RawMailTokens(c.w.MailBuf.Snapshot(), addr, marker)
+			toks = harness.RawMailTokens(c.w.MailBuf.Messages(), addr, marker)
 		case "smtp":
 			toks = harness.RawMailTokens(c.w.SMTPMessages(), addr, marker)
 		default:
